@@ -205,6 +205,10 @@ def gen_history(rng, hdir, idx):
                 nc = c + "r"
                 info["cols"][info["cols"].index(c)] = nc
                 acts.append({"type": "rename_column", "table": t, "from": c, "to": nc})
+        if tables and rng.random() < 0.25:
+            # a migration that issues no statement on SQLite: no action at all, or column comments only
+            t = rng.choice(sorted(tables))
+            acts = [] if rng.random() < 0.5 else [{"type": "modify_column_comment", "table": t, "column": tables[t]["cols"][-1], "new_comment": "generated comment %d" % version}]
         mig_list.append({"version": version, "id": uid(version), "comment": "generated", "actions": acts})
     # views reference unprefixed table names: generated histories carry no prefix
     shutil.rmtree(hdir, ignore_errors=True)
@@ -266,6 +270,16 @@ def base_runs(h, tier):
     return runs
 
 
+# error values of different classes / texts handed back by the proxy: the generated code must treat them alike
+ERR_VALUES = [("custom", "injected fault"),
+              ("exec", "error returned from database: (code: 5) database is locked"),
+              ("exec", "error returned from database: (code: 6) database table is locked"),
+              ("exec", "error returned from database: 1205 (HY000): Lock wait timeout exceeded; try restarting transaction"),
+              ("exec", "error returned from database: (code: 1) table \"users\" already exists"),
+              ("exec", "error returned from database: (code: 1) duplicate column name: email"),
+              ("conn", "connection reset by peer")]
+
+
 def fault_runs(h, tier, rng, ncalls):
     n = len(h["versions"])
     runs = []
@@ -279,12 +293,53 @@ def fault_runs(h, tier, rng, ncalls):
             else:
                 js = sorted(set(rng.sample(range(nc), min(2, nc))))
             for j in js:
-                runs.append(seq_run("f_v%d_k%d_j%d" % (v, k, j), v, {"k": k, "vt": "absent" if k == 0 else "current"}, faults=((j,), ()),
-                                    family="c10", kind="fault", k=k, j=j))
+                r = seq_run("f_v%d_k%d_j%d" % (v, k, j), v, {"k": k, "vt": "absent" if k == 0 else "current"}, faults=((j,), ()),
+                            family="c10", kind="fault", k=k, j=j)
+                cls, txt = ERR_VALUES[(j + k + v) % len(ERR_VALUES)]
+                r["instances"][0].update({"fault_class": cls, "fault_text": txt})
+                r["tags"]["error_value"] = "%s: %s" % (cls, txt[:60])
+                runs.append(r)
             if v == 0:
                 j = rng.randrange(2, nc)
                 runs.append(seq_run("f2_v0_k%d_j%d" % (k, j), 0, {"k": k, "vt": "legacy" if k else "absent"}, faults=((1, j), ()),
                                     family="c10", kind="fault", k=k, j=j))
+    return runs
+
+
+def persistent_runs(h, tier, out1):
+    """persistent faults keyed by statement: EVERY execution of one pending statement fails (however often it is
+    attempted), with error values of different classes; afterwards the fault is lifted and the run repeated"""
+    migs, n = out1["migs"], len(out1["migs"])
+    runs = []
+    for v in (0, 1):
+        for k in (range(n) if tier == "thorough" else sorted({0, max(n - 1, 0)})):
+            pos, call = [], 5
+            for m in migs[k:]:
+                for st in [x for a in m["actions"] for x in a["sqlite"] if x]:
+                    pos.append((call, st))
+                    call += 1
+                call += 1
+            # a statement text that occurs twice among the pending ones would fail at its first occurrence: keep first occurrences
+            seen, uniq = set(), []
+            for c, st in pos:
+                if st not in seen:
+                    seen.add(st)
+                    uniq.append((c, st))
+            if not uniq:
+                continue
+            if tier == "thorough":
+                picks = uniq
+            else:
+                picks = [uniq[0], uniq[-1]] if (k == 0 and len(uniq) > 1) else [uniq[0]]
+            for (c, st) in picks:
+                # all seven error values on the non-verbose shape (thorough: at k = 0, every position); two elsewhere
+                vals = ERR_VALUES if (v == 0 and (tier == "quick" or k == 0)) else [ERR_VALUES[0], ERR_VALUES[1]]
+                for ei, (cls, txt) in enumerate(vals):
+                    runs.append({"name": "pf_v%d_k%d_c%d_e%d" % (v, k, c, ei), "variant": v, "backend": "sqlite", "mode": "sequential",
+                                 "init": {"k": k, "vt": "absent" if k == 0 else "current"},
+                                 "instances": [{"faults": [], "sfaults": [{"sql": st, "class": cls, "text": txt}]}, {"faults": []}], "schedule": [],
+                                 "tags": {"family": "c10", "kind": "persistent", "k": k, "j": c, "statement": st[:120],
+                                          "error_value": "%s: %s" % (cls, txt[:60])}})
     return runs
 
 
@@ -550,7 +605,7 @@ def run_history(hdir, tier, seed, work, built):
         key_nc = (r.get("tags") or {}).get("ncalls_key")
         if key_nc:
             ncalls[key_nc] = len(r["instances"][0]["log"])
-    runs2 = fault_runs(h, tier, rng, ncalls) + obstacle_runs(h, tier, out1) + conc_runs(h, tier, rng, ncalls)
+    runs2 = fault_runs(h, tier, rng, ncalls) + obstacle_runs(h, tier, out1) + persistent_runs(h, tier, out1) + conc_runs(h, tier, rng, ncalls)
     out2, rc, err = run_bin(binp, {"work": wd, "project": hdir, "no_refcats": True, "runs": runs2}, h["name"] + ".2")
     if out2 is None:
         res["error"] = {"stage": "run-faults", "rc": rc, "log": err}
@@ -591,6 +646,11 @@ def history_cases(hres):
             cases.append((g_case(out, first, r["init"]["applied"], model_faults=[[tags["j"]]]),
                           {"history": hres["name"], "run": r["name"], "tags": tags,
                            "refcat": [r["init"]["applied"], r["before"]["catalog"]]}))
+            continue
+        if tags.get("kind") == "persistent":
+            # no retry exists in the model: the run ends at the FIRST failing execution, i.e. a fault at that call
+            cases.append((g_case(out, r, r["init"]["applied"], model_faults=[[tags["j"]], []]),
+                          {"history": hres["name"], "run": r["name"], "tags": tags}))
             continue
         cases.append((g_case(out, r, r["init"]["applied"]), {"history": hres["name"], "run": r["name"], "tags": tags}))
     for c in hres["crashes"]:
@@ -811,6 +871,30 @@ def oracle_obstacle(h, run):
     return {"ok": not fails, "fails": fails}
 
 
+def oracle_persistent(h, run):
+    """a pending statement fails every time it is executed, with some error value: the run must return Err after
+    ONE execution of it, change nothing, and complete once the fault is lifted"""
+    fails = []
+    insts = run["instances"]
+    r0, mid = insts[0]["result"], run["mids"][0]
+    st = (insts[0].get("sfaults") or [{}])[0].get("sql")
+    tries = sum(1 for e in insts[0]["log"] if e["k"] == "txn_exec" and e["sql"] == st)
+    if not r0 or r0["kind"] != "database_error":
+        fails.append({"clause": "failing-statement-returns-err", "got": r0, "error_value": run["tags"].get("error_value"), "executions_of_the_statement": tries,
+                      "calls_after_it": [e["sql"][:80] or e["k"] for e in insts[0]["log"]][-3:]})
+    if tries != 1:
+        fails.append({"clause": "no-retry-of-a-failed-statement", "executions": tries, "error_value": run["tags"].get("error_value")})
+    if not same_but_bookkeeping(run["before"], mid):
+        fails.append({"clause": "failed-run-changes-nothing", "rows_before": run["before"]["rows"], "rows_after": mid["rows"],
+                      "catalog_equal": run["before"]["catalog"] == mid["catalog"]})
+    pend, rows, cat = full_state(h, run, legacy_rows(run["before"]))
+    r1 = insts[1]["result"]
+    if not r1 or r1["kind"] != "ok" or run["after"]["rows"] != rows or (cat is not None and run["after"]["catalog"] != cat):
+        fails.append({"clause": "rerun-after-the-fault-is-lifted-completes", "result": r1, "expected_rows": rows, "got_rows": run["after"]["rows"],
+                      "catalog_equal": run["after"]["catalog"] == cat})
+    return {"ok": not fails, "fails": fails}
+
+
 def oracle_crash(h, c):
     fails = []
     before, look, rerun = c["prep"]["before"], c["look"]["after"], c["rerun"]
@@ -873,7 +957,7 @@ CLASSIFIERS = {"id_conflict": lambda hyp: bool(hyp and hyp.get("id_conflict")),
 FAMILY = {"C09": ("c09",), "C10": ("c10",), "C11": ("c11",)}
 RULES = {
     "C09": "every history (corpus/mig + generated in thorough) x every start version k in 0..n x 4 option sets (plain / verbose / version_table / both), 2 consecutive starts each; legacy bookkeeping layout; fake PostgreSQL/MySQL backends; pre-seeded foreign ids and out-of-range versions. non-trivial = distinct (history, options, prepared database) with >= 1 pending migration",
-    "C10": "fault injected at connection call j (quick: every j for the fresh database of each history + 2 random j per (k, options); thorough: every j everywhere), each followed by a clean re-run; process killed (abort) before call j and database re-opened by a new process; natural engine refusals: an object (table / index / column) that a pending statement creates is created by hand before the run, at every position of the pending list where it is the first statement touching that object, for every start version k and both code shapes, then the obstacle is removed and the run repeated. non-trivial = distinct (history, options, k, j) where the fault/kill hits inside the transaction (j >= 3)",
+    "C10": "fault injected at connection call j (quick: every j for the fresh database of each history + 2 random j per (k, options); thorough: every j everywhere), each followed by a clean re-run; process killed (abort) before call j and database re-opened by a new process; error values of seven classes/texts for the injected failure (neutral, three lock-contention texts, two duplicate-object texts, a connection error), rotated over the call-indexed faults; persistent faults keyed by statement (every execution of one pending statement fails) with each error value, then lifted and the run repeated; natural engine refusals: an object (table / index / column) that a pending statement creates is created by hand before the run, at every position of the pending list where it is the first statement touching that object, for every start version k and both code shapes, then the obstacle is removed and the run repeated. non-trivial = distinct (history, options, k, j) where the fault/kill hits inside the transaction (j >= 3)",
     "C11": "2 or 3 instances on one SQLite file (busy_timeout 0) stepped by the scheduler, then one late retry instance; systematic + seeded random schedules (thorough: every interleaving of the transaction parts for <= 7 calls, every interleaving of the parts outside the transaction). non-trivial = distinct (history, options, k, effective schedule) in which >= 2 instances issued a call while another was unfinished",
 }
 
@@ -991,7 +1075,7 @@ def mig_check(prop, tier, seed, assumptions):
             if ds["tags"].get("j", 0) >= 3:
                 nontriv.add(fp)
         else:
-            o = oracle_obstacle(h, run) if kind == "obstacle" else {"C09": oracle_c09, "C10": oracle_c10, "C11": oracle_c11}[prop](h, run)
+            o = oracle_persistent(h, run) if kind == "persistent" else oracle_obstacle(h, run) if kind == "obstacle" else {"C09": oracle_c09, "C10": oracle_c10, "C11": oracle_c11}[prop](h, run)
             fp = case_fingerprint(ds, run)
             if nontrivial(prop, ds, run, h):
                 nontriv.add(fp)
@@ -1033,6 +1117,7 @@ def mig_check(prop, tier, seed, assumptions):
         rp = vflib.write_replay(prop, "oracle", {"tier": tier, "seed": seed, "history": ds["history"], "history_files": history_files(hd) if hd else None,
                                                  "run": {k: v for k, v in run.items() if k in ("name", "variant", "backend", "init", "schedule", "tags", "k", "j", "between")},
                                                  "faults": [i.get("faults") for i in run.get("instances", [])] if isinstance(run.get("instances"), list) else None,
+                                                 "instance_specs": [{k: i.get(k) for k in ("sfaults", "fault_class", "fault_text") if i.get(k)} for i in run.get("instances", [])] if isinstance(run.get("instances"), list) else None,
                                                  "oracle": o, "hypotheses": ds.get("hyp"), "replay_cmd": "./vf replay %s <this file>" % prop})
         chk.violation(rp)
     if (bad or res["shard_errors"]) and not unexplained:
@@ -1091,8 +1176,9 @@ def mig_replay(prop, path):
         print("replay: the oracle holds on this input now")
         return 0
     faults = rp.get("faults") or [i.get("faults") for i in (rp.get("implementation") or {}).get("instances", [])] or [[]]
+    extra = rp.get("instance_specs") or []
     spec = {"name": "replay", "variant": src.get("variant", 0), "backend": src.get("backend", "sqlite"), "init": {k: v for k, v in (src.get("init") or {}).items() if k in ("k", "vt", "rows", "obstacles")},
-            "instances": [{"faults": f or []} for f in faults], "schedule": src.get("schedule") or [], "tags": tags}
+            "instances": [dict({"faults": f or []}, **(extra[n] if n < len(extra) else {})) for n, f in enumerate(faults)], "schedule": src.get("schedule") or [], "tags": tags}
     if src.get("between"):
         spec["between"] = src["between"]
     if tags.get("family") == "c11":
@@ -1105,7 +1191,7 @@ def mig_replay(prop, path):
         return 1
     hh = {"out": {"migs": out["migs"], "refcats": out["refcats"]}, "versions": h["versions"]}
     run = out["runs"][0]
-    o = oracle_obstacle(hh, run) if tags.get("kind") == "obstacle" else {"C09": oracle_c09, "C10": oracle_c10, "C11": oracle_c11}[prop](hh, run)
+    o = oracle_persistent(hh, run) if tags.get("kind") == "persistent" else oracle_obstacle(hh, run) if tags.get("kind") == "obstacle" else {"C09": oracle_c09, "C10": oracle_c10, "C11": oracle_c11}[prop](hh, run)
     print(json.dumps({"results": [i["result"] for i in run["instances"]], "oracle": o}, indent=1)[:4000])
     if o is not None and not o["ok"]:
         print("VIOLATION property=%s replay=%s" % (prop, path))
